@@ -1,5 +1,298 @@
-use crate::common::Ctx;
-pub fn run(_ctx: &Ctx, _replay: Option<&serde_json::Value>) -> i32 {
-    eprintln!("not implemented");
-    2
+//! C06 — data survives output -> JSON -> input unchanged.
+
+use crate::alpha::*;
+use crate::common::*;
+use crate::oracle;
+use crate::proc::run_blots;
+use blots_core::heap::Heap;
+use blots_core::values::SerializableValue as SV;
+use indexmap::IndexMap;
+use serde_json::{Value as J, json};
+
+/// Structural comparison: numbers by bits, strings and keys by code points, key order kept.
+fn sv_same(a: &SV, b: &SV) -> bool {
+    match (a, b) {
+        (SV::Number(x), SV::Number(y)) => x.to_bits() == y.to_bits(),
+        (SV::Bool(x), SV::Bool(y)) => x == y,
+        (SV::Null, SV::Null) => true,
+        (SV::String(x), SV::String(y)) => x.chars().eq(y.chars()),
+        (SV::List(x), SV::List(y)) => x.len() == y.len() && x.iter().zip(y).all(|(p, q)| sv_same(p, q)),
+        (SV::Record(x), SV::Record(y)) => {
+            x.len() == y.len() && x.iter().all(|(k, v)| y.get(k).map(|w| sv_same(v, w)).unwrap_or(false))
+        }
+        _ => false,
+    }
+}
+
+fn leaf_numbers(thorough: bool) -> Vec<f64> {
+    let g = double_grid(thorough);
+    // a spread of the grid for use inside containers, plus boundaries
+    let mut v: Vec<f64> = g.iter().step_by(g.len() / if thorough { 400 } else { 60 }).cloned().collect();
+    v.extend([0.0, -0.0, 1.0, -1.0, 0.1, 5e-324, f64::MAX, f64::MIN_POSITIVE, 9007199254740993.0, 1e21, 1e-7, 123456.789, 0.30000000000000004, 1.0000000000000002]);
+    v
+}
+
+fn key_pool() -> Vec<String> {
+    let mut v: Vec<String> = vec!["a".into(), "".into(), "0".into(), "a b".into(), "\u{e9}".into(), "e\u{301}".into(), "k\u{0}".into(), "k".into(), "\"".into(), "\\".into(), "\n".into(), "\u{1f600}".into(), "__blots".into(), "__proto__".into(), "constructor".into()];
+    v.extend(sigma_strings(1));
+    v.sort();
+    v.dedup();
+    v
+}
+
+/// One direction-1 round trip in process. Returns problems found.
+fn round_trip(v: &SV) -> Result<(), String> {
+    let mut heap = Heap::new();
+    let val = v.to_value(&mut heap).map_err(|e| format!("to_value: {}", e))?;
+    let sv1 = SV::from_value(&val, &heap).map_err(|e| format!("from_value: {}", e))?;
+    let text = serde_json::to_string(&sv1.to_json()).map_err(|e| format!("to_string: {}", e))?;
+    let j: J = serde_json::from_str(&text).map_err(|e| format!("from_str: {} ({})", e, truncate(&text, 80)))?;
+    let sv2 = SV::from_json(&j);
+    let back = sv2.to_value(&mut heap).map_err(|e| format!("to_value(2): {}", e))?;
+    let eq = val.equals(&back, &heap).map_err(|e| format!("equals: {}", e))?;
+    if !eq {
+        return Err(format!(".== is false after the round trip; json text {}", truncate(&text, 200)));
+    }
+    if !sv_same(v, &sv2) {
+        return Err(format!("structural difference: {} vs {}; json text {}", truncate(&canon_sv(v), 150), truncate(&canon_sv(&sv2), 150), truncate(&text, 150)));
+    }
+    Ok(())
+}
+
+fn rec(pairs: Vec<(String, SV)>) -> SV {
+    SV::Record(pairs.into_iter().collect::<IndexMap<_, _>>())
+}
+
+fn values(thorough: bool) -> Vec<SV> {
+    let nums = leaf_numbers(thorough);
+    let strs = sigma_strings(if thorough { 3 } else { 2 });
+    let keys = key_pool();
+    let mut leaves: Vec<SV> = vec![SV::Null, SV::Bool(true), SV::Bool(false)];
+    leaves.extend(nums.iter().map(|n| SV::Number(*n)));
+    leaves.extend(strs.iter().map(|s| SV::String(s.clone())));
+    leaves.extend(["", "0", "a b", "\u{e9}", "e\u{301}", "k\u{0}", "line1\nline2", "tab\t", "\u{d7ff}\u{e000}", "\u{10000}\u{10ffff}", "\\u0041", "\\\"", "</script>", "\u{2028}\u{2029}", "\u{feff}bom"].iter().map(|s| SV::String(s.to_string())));
+    let mut out = leaves.clone();
+    // depth 2: every leaf in a list, in a record under every key
+    let small: Vec<SV> = leaves.iter().step_by(leaves.len() / if thorough { 300 } else { 60 } + 1).cloned().collect();
+    for l in &leaves {
+        out.push(SV::List(vec![l.clone()]));
+    }
+    for k in &keys {
+        for l in &small {
+            out.push(rec(vec![(k.clone(), l.clone())]));
+        }
+    }
+    // pairs of keys (order, near-duplicates), mixed lists
+    for k1 in &keys {
+        for k2 in &keys {
+            if k1 != k2 {
+                out.push(rec(vec![(k1.clone(), SV::Number(1.0)), (k2.clone(), SV::Number(2.0))]));
+            }
+        }
+    }
+    for a in &small {
+        for b in small.iter().step_by(3) {
+            out.push(SV::List(vec![a.clone(), b.clone()]));
+        }
+    }
+    // depth 3 and 4: containers of containers
+    for a in small.iter().step_by(2) {
+        out.push(SV::List(vec![SV::List(vec![a.clone()]), rec(vec![("k".into(), a.clone())])]));
+        out.push(rec(vec![("outer".into(), rec(vec![("inner".into(), SV::List(vec![a.clone(), SV::Null]))]))]));
+        out.push(rec(vec![("z".into(), a.clone()), ("a".into(), SV::List(vec![rec(vec![("b".into(), a.clone()), ("a".into(), SV::Null)])]))]));
+    }
+    // spines to depth 6
+    for a in small.iter().step_by(5) {
+        let mut v = a.clone();
+        for d in 0..6 {
+            v = if d % 2 == 0 { SV::List(vec![v, SV::Number(d as f64)]) } else { rec(vec![(format!("d{}", d), v)]) };
+        }
+        out.push(v);
+    }
+    out.push(SV::List(vec![]));
+    out.push(rec(vec![]));
+    out
+}
+
+fn contains_reserved(j: &J) -> bool {
+    match j {
+        J::Object(o) => o.contains_key("__blots_function") || o.values().any(contains_reserved),
+        J::Array(a) => a.iter().any(contains_reserved),
+        _ => false,
+    }
+}
+
+/// JSON documents for direction 2 (as texts, including number spellings serde would not produce).
+fn documents(thorough: bool) -> Vec<String> {
+    let mut docs: Vec<String> = vec![];
+    let number_texts = [
+        "0", "-0.0", "1", "-1", "0.1", "1E2", "1e-2", "1.5e+3", "123456789012345678901234567890", "4.35", "0.30000000000000004", "1.0000000000000002",
+        "0.1000000000000000055511151231257827021181583404541015625", "5e-324", "2.2250738585072011e-308", "1.7976931348623157e308", "9007199254740993",
+        "18446744073709551615", "18446744073709551616", "-9223372036854775808", "-9223372036854775809", "8.41e21", "1e23", "0.000001", "100000000000000000000",
+        "2.4703282292062328e-324", "1.00000000000000011102230246251565404236316680908203125", "1e400", "-1e400", "1e-400",
+    ];
+    for n in number_texts {
+        docs.push(format!("{{\"x\": {}}}", n));
+        docs.push(format!("{{\"x\": [{}, {{\"y\": {}}}]}}", n, n));
+    }
+    let grid = double_grid(thorough);
+    for x in grid.iter().step_by(grid.len() / if thorough { 3000 } else { 300 }) {
+        docs.push(format!("{{\"x\": {:?}}}", x));
+    }
+    let string_texts = [
+        "\"\"", "\"a\"", "\"\\u00e9\"", "\"\\ud83d\\ude00\"", "\"\\u0000\"", "\"\\n\\t\\r\\b\\f\\\\\\/\\\"\"", "\"e\\u0301\"", "\"\u{e9}\"", "\"\u{1f600}\"", "\"\\u2028\"", "\"\\uffff\"",
+        "\"a b\"", "\"//not a comment\"", "\"#k\"", "\"{}\"",
+    ];
+    for s in string_texts {
+        docs.push(format!("{{\"x\": {}}}", s));
+        docs.push(format!("{{\"x\": {{{}: {}}}}}", s, s));
+    }
+    for d in [
+        "{\"x\": null}", "{\"x\": true}", "{\"x\": false}", "{\"x\": []}", "{\"x\": {}}", "{\"x\": [[], {}, [[]], {\"a\": {}}]}", "{\"x\": {\"b\": 1, \"a\": 2, \"c\": {\"z\": 1, \"y\": 2}}}",
+        "{\"x\": [1, \"a\", null, true, [2, {\"k\": [3]}]]}", "{\"x\": {\"\": 0, \"0\": 1, \"a b\": 2, \"k\\u0000\": 3, \"k\": 4}}", "{ \"x\" : [ 1 , 2 ] }", "{\"x\":1,\"x\":2}",
+        "{\"y\": 1}", "{\"x\": {\"__blots\": 1, \"__proto__\": 2}}",
+    ] {
+        docs.push(d.to_string());
+    }
+    docs
+}
+
+pub fn run(ctx: &Ctx, replay: Option<&J>) -> i32 {
+    if let Some(r) = replay {
+        if let Some(doc) = r["case"]["doc"].as_str() {
+            let res = run_blots(&["output x = inputs.x".into(), "-i".into(), doc.into()], None, None);
+            println!("blots 'output x = inputs.x' -i {:?}\n-> {}", doc, res.describe());
+            return 1;
+        }
+        let j: J = r["case"]["json"].clone();
+        let v = SV::from_json(&j);
+        println!("value {}: {:?}", canon_sv(&v), round_trip(&v));
+        return 1;
+    }
+    let thorough = !ctx.quick();
+    // ---- direction 1, in process
+    let vals = values(thorough);
+    ctx.set("values", json!(vals.len()));
+    par_for_ctx(ctx, vals.len(), |i| {
+        let v = &vals[i];
+        ctx.count(1);
+        ctx.nontrivial(&canon_sv(v));
+        ctx.outcome(match v {
+            SV::Number(_) => "number",
+            SV::String(_) => "string",
+            SV::List(_) => "list",
+            SV::Record(_) => "record",
+            _ => "other",
+        });
+        match catch(|| round_trip(v)) {
+            Ok(Ok(())) => {}
+            Ok(Err(e)) => ctx.violation(Violation {
+                kind: "round-trip".into(),
+                class: match v {
+                    SV::Number(_) => "number".into(),
+                    SV::String(_) => "string".into(),
+                    SV::List(_) => "list".into(),
+                    SV::Record(_) => "record".into(),
+                    _ => "scalar".into(),
+                },
+                input: truncate(&canon_sv(v), 300),
+                expected: "equal (.==) and structurally identical after output -> JSON -> input".into(),
+                observed: e,
+                case: json!({"json": v.to_json()}),
+            }),
+            Err(p) => ctx.violation(Violation { kind: "round-trip-panic".into(), class: "panic".into(), input: truncate(&canon_sv(v), 300), expected: "no panic".into(), observed: p, case: json!({"json": v.to_json()}) }),
+        }
+    });
+    // ---- direction 1 through two real processes (chain), direction 2 through the real CLI
+    let docs = documents(thorough);
+    ctx.set("documents", json!(docs.len()));
+    let results: Vec<(String, Option<(String, String)>)> = par_map(&docs, |doc| {
+        let r1 = run_blots(&["output x = inputs.x".into(), "-i".into(), doc.clone()], None, None);
+        if r1.code != Some(0) {
+            return (r1.describe(), None);
+        }
+        let r2 = run_blots(&["output x = inputs.x".into()], Some(r1.stdout.as_bytes()), None);
+        (String::new(), Some((r1.stdout.trim().to_string(), if r2.code == Some(0) { r2.stdout.trim().to_string() } else { format!("<stage 2 failed: {}>", r2.describe()) })))
+    });
+    let mut requests = vec![];
+    let mut req_docs = vec![];
+    for (doc, (err, res)) in docs.iter().zip(results.iter()) {
+        ctx.count(2);
+        ctx.nontrivial(doc);
+        let parsed: Option<J> = serde_json::from_str(doc).ok();
+        let representable = !doc.contains("e400");
+        match res {
+            None => {
+                if representable {
+                    ctx.violation(Violation { kind: "cli-input-rejected".into(), class: "cli".into(), input: doc.clone(), expected: "exit 0".into(), observed: err.clone(), case: json!({"doc": doc}) });
+                }
+            }
+            Some((out1, out2)) => {
+                ctx.outcome("cli-document");
+                if out1 != out2 {
+                    ctx.violation(Violation { kind: "cli-chain-unstable".into(), class: "cli".into(), input: doc.clone(), expected: out1.clone(), observed: out2.clone(), case: json!({"doc": doc}) });
+                }
+                if let Some(p) = &parsed {
+                    if contains_reserved(p) || !representable {
+                        continue;
+                    }
+                    // expected document: {"x": <inputs.x or null>}
+                    let want = json!({"x": p.get("x").cloned().unwrap_or(J::Null)});
+                    let _ = want;
+                    let want_text = match p.get("x") {
+                        Some(_) => doc.clone(),
+                        None => "{\"x\": null}".to_string(),
+                    };
+                    // only the "x" member is echoed: compare {"x": ...} of both sides
+                    requests.push(format!("JSONEQ {}\t{}", project_x(&want_text), out1));
+                    req_docs.push(doc.clone());
+                }
+            }
+        }
+    }
+    match oracle::ask(&requests) {
+        Err(e) => ctx.machinery_error(format!("oracle failed: {}", e)),
+        Ok(answers) => {
+            for ((req, doc), a) in requests.iter().zip(req_docs.iter()).zip(answers.iter()) {
+                if a != "ok" {
+                    ctx.violation(Violation {
+                        kind: "cli-echo-differs".into(),
+                        class: "cli".into(),
+                        input: doc.clone(),
+                        expected: "output x = inputs.x reproduces the document (JSON equality, numbers as doubles)".into(),
+                        observed: format!("{} ({})", req.split('\t').nth(1).unwrap_or(""), a),
+                        case: json!({"doc": doc}),
+                    });
+                }
+            }
+        }
+    }
+    for v in vals.iter().step_by(vals.len() / 5 + 1) {
+        ctx.sample(json!({"value": v.to_json()}));
+    }
+    ctx.sample(json!({"document": docs[3], "program": "output x = inputs.x"}));
+    for t in ["number", "string", "list", "record"] {
+        ctx.require_outcome(t, 50);
+    }
+    ctx.require_outcome("cli-document", 100);
+    ctx.set("trusted_base", json!(["/verif/lib/oracle.py (python json + float: correctly rounded reference for JSON numbers)"]));
+    ctx.assume("objects containing the reserved key __blots_function are excluded, as the statement says; JSON numbers beyond the double range (1e400) have no double value and are excluded from the echo comparison");
+    finish(
+        ctx,
+        "exploration",
+        "direction 1: every leaf (grid spread of finite doubles incl. -0, 5e-324, f64::MAX, 2^53+1; every string of length <= 2/3 over the 24-code-point alphabet plus BOM / surrogate-boundary / escape-looking strings; booleans, null), each leaf in a list and under every key of a 39-key pool (empty, numeric-looking, composed/decomposed, trailing NUL, quotes, __proto__), every ordered key pair, leaf pairs, depth-3/4 nestings and depth-6 spines: value -> from_value -> to_json -> text -> from_json -> to_value, compared by .== in one heap and structurally by bits / code points; direction 2: documents (number spellings incl. 17+ digits, exponents, > 2^64 integers; escapes; nested, duplicate keys) through the real `blots 'output x = inputs.x' -i doc` and a second process reading the first one's stdout, compared by an independent JSON oracle; distinct = distinct values / documents",
+        true,
+        None,
+    )
+}
+
+/// Reduce a document text to `{"x": <member x>}` textually via serde (numbers keep their text
+/// because the comparison is done by the oracle on the original spelling when possible).
+fn project_x(doc: &str) -> String {
+    // keep the original text when the document has only the member x (the common case)
+    match serde_json::from_str::<J>(doc) {
+        Ok(J::Object(o)) if o.len() == 1 && o.contains_key("x") => doc.to_string(),
+        Ok(J::Object(o)) => json!({"x": o.get("x").cloned().unwrap_or(J::Null)}).to_string(),
+        _ => doc.to_string(),
+    }
 }
